@@ -560,6 +560,32 @@ def check_scanner(facts):
                     "digit and inserts group 0)" % {k: v for k, v in sorted(preds.items())}, facts.loc(root, sorted(preds.items())[0][1][0]))
     else:
         r.error("no character predicate found in the template scanner")
+    # digits are recognised only through that predicate: no test of a template character against one particular digit
+    nchar = 0
+    for fn in sorted(fns):
+        b = facts.body(fn)
+        hits = []
+        for bi in sorted(b.reachable()):
+            ts = b.blocks[bi]["t"]
+            if ts["k"] == "switch" and ts.get("dty") == "char":
+                nchar += 1
+                hits += [(v, ts.get("line")) for v, tg in ts["targets"] if 0x30 <= v <= 0x39]
+        for bi, i, st in b.iter_stmts():
+            if st["k"] == "assign" and st["rv"]["k"] == "bin" and st["rv"].get("op") in ("Eq", "Ne"):
+                for x in (st["rv"]["a"], st["rv"]["b"]):
+                    if x.get("k") == "const" and "char" in str(x.get("ty", "")) and x.get("int") is not None and 0x30 <= x["int"] <= 0x39:
+                        hits.append((x["int"], st.get("line")))
+                if any("char" in str(x.get("ty", "")) or (x.get("k") in ("copy", "move") and b.local_ty(x["pl"]["l"]) == "char")
+                       for x in (st["rv"]["a"], st["rv"]["b"])):
+                    nchar += 1
+        key = "%s treats all digits alike" % fn
+        if hits:
+            r.fail(key, "the template scanner tests a character against the single digit %r (line %s): `$` followed by a digit run is one "
+                        "group number whatever its first digit is — a special case for one digit cuts `$01` into `$0` + \"1\"" % (
+                            chr(hits[0][0]), hits[0][1]), facts.loc(fn, hits[0][1]))
+        else:
+            r.ok(key, "no test against a particular digit")
+    r.floor("character_tests", nchar, 3)
     r.floor("discarding_next_calls", nd, 3)
     r.floor("peek_calls", npeek, 2)
     return r
